@@ -1565,12 +1565,15 @@ def kernel32_lstrcpy(jitter):
 
 def msvcrt__mbscpy(jitter):
     ret_ad, args = jitter.func_args_cdecl(["ptr_str1", "ptr_str2"])
-    s2 = get_win_str_w(jitter, args.ptr_str2)
-    set_win_str_w(jitter, args.ptr_str1, s2)
+    s2 = get_win_str_a(jitter, args.ptr_str2)
+    set_win_str_a(jitter, args.ptr_str1, s2)
     jitter.func_ret_cdecl(ret_ad, args.ptr_str1)
 
 def msvcrt_wcscpy(jitter):
-    return msvcrt__mbscpy(jitter)
+    ret_ad, args = jitter.func_args_cdecl(["ptr_str1", "ptr_str2"])
+    s2 = get_win_str_w(jitter, args.ptr_str2)
+    set_win_str_w(jitter, args.ptr_str1, s2)
+    jitter.func_ret_cdecl(ret_ad, args.ptr_str1)
 
 
 def kernel32_lstrcpyn(jitter):
